@@ -554,6 +554,11 @@ structure Request where
   mutation : Bool
   fields : List Field
   sched : List Nat
+  /-- Which executor the request runs on: `true` = with the repair of finding F-11a
+      (repo-patches/C11/01-fix-…): after waiting for a mutation root field, the serial loop receives
+      the result of every promise returned beneath it — driving the idle handler while any is
+      unfulfilled — before it goes on (`settleSerialPromises`); `false` = without it. -/
+  settle : Bool := false
   deriving Inhabited
 
 mutual
@@ -569,19 +574,40 @@ mutual
     | .mk _ _ _ _ c :: fs => 1 + c.invocations + Field.invocationsL fs
 end
 
+/-- `settleSerialPromises` (repair of F-11a): receive what the channels of the promises returned
+    beneath the current root field hold; while one of them is still unfulfilled call the idle
+    handler and look again. After `wait` every promise that is still of interest has been received,
+    so what is left belongs to futures nobody polls anymore; at most `n` rounds are needed when `n`
+    promises are outstanding (every round fulfils at least one). -/
+def settleLoop : Nat → List Nat → Store → List Nat × Store
+  | 0, sched, S => (sched, { S with chan := [] })
+  | n + 1, sched, S =>
+    if S.outstanding.isEmpty then (sched, { S with chan := [] })
+    else settleLoop n sched.tail (idleRound sched.head? S)
+
+/-- `wait(e, f)` followed, on the repaired executor, by `settleSerialPromises`. -/
+def waitSettle (settle : Bool) (fuel : Nat) (f : Fut) (sched : List Nat) (S : Store) :
+    WaitResult × List Nat × Store :=
+  match waitLoop fuel f sched S with
+  | (.done r, sched', S3) =>
+    if settle then ((.done r : WaitResult), (settleLoop S3.outstanding.length sched' S3).1,
+      (settleLoop S3.outstanding.length sched' S3).2)
+    else (.done r, sched', S3)
+  | other => other
+
 /-- The field loop of `executeSelections` with forceSerial = true (mutation root): each field's
     future is waited for — driving idle rounds — before the next field is touched. -/
-def execSerial (fuel : Nat) : List Field → Nat → Nat → List Nat → Store → WaitResult × List Nat × Store
+def execSerial (settle : Bool) (fuel : Nat) : List Field → Nat → Nat → List Nat → Store → WaitResult × List Nat × Store
   | [], n, _, sched, S => (.done (.ok (.obj [] n)), sched, S)
   | .mk key nn mode rerr c :: rest, n, i, sched, S =>
     match mode with
-    | .tname => execSerial fuel rest n (i + 1) sched (S.push (.write [] i key (tnameVal c)))
+    | .tname => execSerial settle fuel rest n (i + 1) sched (S.push (.write [] i key (tnameVal c)))
     | _ =>
       let (f0, S1) := execField nn mode rerr c [.key key] (complete nn c [.key key]) S
       let (f, S2) := catchIfNullable nn f0 S1
-      match waitLoop fuel f sched S2 with
+      match waitSettle settle fuel f sched S2 with
       | (.done (.err e), sched', S3) => (.done (.err e), sched', S3)
-      | (.done (.ok v), sched', S3) => execSerial fuel rest n (i + 1) sched' (S3.push (.write [] i key v))
+      | (.done (.ok v), sched', S3) => execSerial settle fuel rest n (i + 1) sched' (S3.push (.write [] i key v))
       | (w, sched', S3) => (w, sched', S3)
 
 /-- `executeQuery` / `executeMutation`: run the root selection set, wait, move a root error into
@@ -590,7 +616,7 @@ def execute (rq : Request) : WaitResult × Store :=
   let fuel := Field.invocationsL rq.fields + 1
   let S0 : Store := {}
   if rq.mutation then
-    match execSerial fuel rq.fields rq.fields.length 0 rq.sched S0 with
+    match execSerial rq.settle fuel rq.fields rq.fields.length 0 rq.sched S0 with
     | (.done (.err e), _, S) => (.done (.err e), S.push (.error e))
     | (w, _, S) => (w, S)
   else
